@@ -66,43 +66,48 @@ theorem checkOn_self_passes (c : Ctx) (l : Locals) (tag : Option String) (body :
       | _ => simp [checkResult] at h
   | _ => simp [checkResult] at h
 
-/-- an accepting run of `File.ValidateWith` on a file that is not an ADV file, without `SkipAll`, ran the three helpers
-with `IsADV = false`, and each returned nil -/
+/-- an accepting run of `File.ValidateWith` on a file that is not an ADV file, without `SkipAll`, is an accepting run of
+the branch for such files -/
+theorem accepted_file_enters_nonadv (c : Ctx) (hskip : hasFlag c "param" "SkipAll" = false)
+    (hnadv : (exec v_File_IsADV c []).2 = .ret (.bool false))
+    (ha : run c v_File_ValidateWith = .accept) :
+    ∃ L, (exec nonAdvPart c L).2 = .ret (.err none) := by
+  have hres := Ach.Props.Validators.accept_ret c _ ha
+  obtain ⟨hS, hR, hro1, hq1, _, _, _, _, _⟩ := file_validate_outline2
+  obtain ⟨_, _, _, _, hend, _, _, _⟩ := file_validate_outline
+  rw [← seqs_stmts v_File_ValidateWith, hS, seqs_cons_ne _ _ (by simp)] at hres
+  have hg : exec skipGuard c [] = ([], .next) := by simp [skipGuard, exec, eval, hskip, scopeExit]
+  simp only [exec, hg] at hres
+  rw [seqs_cons_ne _ _ (by simp)] at hres
+  obtain ⟨pre, h1⟩ := accept_seq_q hro1 hq1 hres
+  simp only [List.append_nil] at h1
+  rw [seqs_cons_ne _ _ hR] at h1
+  have hb : (exec mainBlock c pre).2 = (exec nonAdvPart c (("_t1", .bool false) :: pre)).2 := by
+    simp [mainBlock, exec, eval, hnadv, subResult, lookup]
+  have hnn := endsInRet_not_next nonAdvPart hend c (("_t1", .bool false) :: pre)
+  refine ⟨("_t1", .bool false) :: pre, ?_⟩
+  simp only [exec] at h1
+  cases hx : exec mainBlock c pre with
+  | mk l1 s1 =>
+    rw [hx] at h1 hb
+    simp only at hb
+    cases s1 with
+    | next => exact absurd hb.symm hnn
+    | ret v => simp only at h1; rw [← hb]; exact h1
+    | brk => simp at h1
+    | cont => simp at h1
+    | stuck _ => simp at h1
+
+/-- … and ran the three helpers with `IsADV = false`, each of which returned nil -/
 theorem accepted_file_ran_helpers (c : Ctx) (hskip : hasFlag c "param" "SkipAll" = false)
     (hnadv : (exec v_File_IsADV c []).2 = .ret (.bool false))
     (ha : run c v_File_ValidateWith = .accept) :
     (exec v_File_isEntryAddendaCount c [("IsADV", .bool false)]).2 = .ret (.err none) ∧
     (exec v_File_isFileAmount c [("IsADV", .bool false)]).2 = .ret (.err none) ∧
     (exec v_File_isEntryHash c [("IsADV", .bool false)]).2 = .ret (.err none) := by
-  have hres := Ach.Props.Validators.accept_ret c _ ha
-  obtain ⟨hS, hR, hro1, hq1, hroC, hqC, hroA, hroH, hne5⟩ := file_validate_outline2
-  obtain ⟨_, _, _, _, hend, hd3, hd6, hall6⟩ := file_validate_outline
-  -- past the SkipAll guard
-  rw [← seqs_stmts v_File_ValidateWith, hS, seqs_cons_ne _ _ (by simp)] at hres
-  have hg : exec skipGuard c [] = ([], .next) := by simp [skipGuard, exec, eval, hskip, scopeExit]
-  simp only [exec, hg] at hres
-  -- past the header check
-  rw [seqs_cons_ne _ _ (by simp)] at hres
-  obtain ⟨pre, h1⟩ := accept_seq_q hro1 hq1 hres
-  simp only [List.append_nil] at h1
-  -- into the branch for files that are not ADV files
-  rw [seqs_cons_ne _ _ hR] at h1
-  have hb : (exec mainBlock c pre).2 = (exec nonAdvPart c (("_t1", .bool false) :: pre)).2 := by
-    simp [mainBlock, exec, eval, hnadv, subResult, lookup]
-  have hnn := endsInRet_not_next nonAdvPart hend c (("_t1", .bool false) :: pre)
-  have hacc : (exec nonAdvPart c (("_t1", .bool false) :: pre)).2 = .ret (.err none) := by
-    simp only [exec] at h1
-    cases hx : exec mainBlock c pre with
-    | mk l1 s1 =>
-      rw [hx] at h1 hb
-      simp only at hb
-      cases s1 with
-      | next => exact absurd hb.symm hnn
-      | ret v => simp only at h1; rw [← hb]; exact h1
-      | brk => simp at h1
-      | cont => simp at h1
-      | stuck _ => simp at h1
-  -- the calls of the helpers
+  obtain ⟨L, hacc⟩ := accepted_file_enters_nonadv c hskip hnadv ha
+  obtain ⟨_, _, _, _, hroC, hqC, hroA, hroH, hne5⟩ := file_validate_outline2
+  obtain ⟨_, _, _, _, _, hd3, hd6, hall6⟩ := file_validate_outline
   have hs3 : stmts nonAdvPart = (stmts nonAdvPart).take 3 ++ (stmts nonAdvPart).drop 3 := (List.take_append_drop _ _).symm
   have hall3 : ((stmts nonAdvPart).take 3).all (fun q => rejectOnly q && quiet q) = true := by
     have h6 := List.all_eq_true.mp hall6
